@@ -1032,26 +1032,8 @@ func runC08(c *RuleCtx) {
 		unexpired := AtomBool("now.Before(expire)", func(v *V) bool {
 			return v.IsCall("time.Time.Before") && len(v.Args) == 2 && v.Args[0].IsCall("time.Now") && v.Args[1].Kind == "lookupval"
 		})
-		var arm []Edge
-		for _, blk := range g.C.Blocks {
-			if g.condOf[blk] == nil {
-				continue
-			}
-			var fs []Fact
-			factsOf(g.condOf[blk], true, &fs)
-			a, b := false, false
-			for _, fc := range fs {
-				if ok, s := boPresent.Match(g, fc.E); ok && s == fc.Truth {
-					a = true
-				}
-				if ok, s := unexpired.Match(g, fc.E); ok && s == fc.Truth {
-					b = true
-				}
-			}
-			if a && b {
-				arm = append(arm, Edge{blk, 0})
-			}
-		}
+		// the arm: the edges after which both facts are known (one `&&` condition or nested ifs alike)
+		arm := g.ConjEdges(AtomWant{boPresent, true}, AtomWant{unexpired, true})
 		if len(arm) == 0 {
 			c.Bad("R08.3", f.Name, "backed-off GRAFT arm", f.Decl, "no branch on `backoff present && now.Before(expire)`")
 		}
@@ -1111,7 +1093,7 @@ func runC08(c *RuleCtx) {
 			for _, l := range p.EnclosingLoops(cs.Call) {
 				if r, ok := l.(*ast.RangeStmt); ok {
 					if id, ok := unparen(r.X).(*ast.Ident); ok {
-						pruneObj = f.Info().Uses[id]
+						pruneObj = p.R(f).CopyRoot(f.Info().Uses[id])
 					}
 				}
 			}
@@ -1165,12 +1147,17 @@ func runC08(c *RuleCtx) {
 			c.Undecided("R08.4", f.Name, "returns", f.Decl, "expected two PRUNE constructions")
 		}
 		// flag agreement with addBackoff
-		unsub := AtomBool("isUnsubscribe", func(v *V) bool { return v.Kind == "var" && v.Name == "isUnsubscribe" })
 		for _, fn := range []string{fnMakePrune, fnAddBackoff} {
 			ff := c.MustFn("R08.4", fn)
 			if ff == nil {
 				continue
 			}
+			// the unsubscribe flag is the last parameter of both functions
+			np := 0
+			for paramObj(ff, np) != nil {
+				np++
+			}
+			unsub := AtomBool("isUnsubscribe", isParam(ff, np-1))
 			for _, tc := range []struct {
 				field string
 				want  bool
